@@ -180,6 +180,27 @@ def hostile_files():
         return b.source_unit(parts), []
     out.append(('declarations without a body', bodyless))
 
+    def receivers(b):
+        """the members the detectors look for (`transfer`, `add`, `balance`, `length`, ...) called / read on receivers of EVERY expression shape,
+        directly and through one more member access: whatever a detector does with the receiver, it must cope with all of them"""
+        v = b.var
+        call = lambda f, *a: b.call(f if not isinstance(f, str) else v(f), list(a))
+        bases = [lambda: v('t'), lambda: b.index(v('pools'), v('id')), lambda: call('poolOf', v('id')), lambda: b.this(),
+                 lambda: b.paren(b.ternary(v('c'), v('t'), v('u'))), lambda: call(b.ty('Address'), v('t')), lambda: call(b.ty('Payable'), b.member(v('msg'), 'sender')),
+                 lambda: b.call(b.un('New', v('Token')), []), lambda: b.member(v('msg'), 'sender'), lambda: b.index(b.member(v('s'), 'list'), b.num(0)),
+                 lambda: b.paren(b.bin('Add', v('a'), v('d'))), lambda: b.string('text'), lambda: b.num(7)]
+        stmts = []
+        for mk in bases:
+            for mem, args in (('transfer', 2), ('transferFrom', 3), ('approve', 2), ('add', 1), ('div', 1), ('push', 1), ('call', 1)):
+                stmts.append(b.expr_stmt(call(b.member(mk(), mem), *[v('x%d' % i) for i in range(args)])))
+                stmts.append(b.expr_stmt(call(b.member(b.member(mk(), 'token'), mem), *[v('x%d' % i) for i in range(args)])))
+            for mem in ('balance', 'length', 'selector'):
+                stmts.append(b.expr_stmt(b.member(mk(), mem)))
+                stmts.append(b.for_(None, b.bin('Less', v('i'), b.member(b.member(mk(), 'items'), mem)), None, b.block([])))
+        c = fam.contract_with(b, [b.using('SafeMath', b.ty('Uint', 256)), b.state_var(b.ty('Uint', 256), 'x'), fam.fn_def(b, stmts)])
+        return b.source_unit([b.pragma('solidity', '^0.8.4'), c]), []
+    out.append(('receivers of every expression shape', receivers))
+
     def type_shapes(b):
         """state variables, struct fields, parameters and locals whose TYPE is written in every form the grammar has: elementary, user
         name, qualified name `A.B`, arrays (fixed / dynamic / nested), mappings (nested, user-typed keys), function types"""
